@@ -194,6 +194,25 @@ def check_point(system, mu, name, tag):
             T[2, 2] = T[5, 5] = w2
             if float(np.max(np.abs(N - T))) > 1e-7 * (1 + float(np.max(np.abs(T)))):
                 V("normal_form/h2_not_reduced", "C^T Hess(H2) C is not the pattern of lambda q1 p1 + w1/2 (q2^2+p2^2) + w2/2 (q3^2+p3^2): max deviation %.3e" % float(np.max(np.abs(N - T))), N, T)
+        elif not above_routh:
+            # triangular points: H2 = 1/2 p^2 + y px - x py - 1/2 sum U_ij x_i x_j with U the gravitational potential (its Hessian is invariant under the
+            # rotation by pi between the expansion frame and the synodic frame); Hessian of U by 40-digit central differences of the reference accelerations
+            Jr = _jac_ref(pos, mum)     # d(acceleration)/d(position) = Omega_ij ; U_ij = Omega_ij - diag(1,1,0)
+            Om = np.array([[float(Jr[3 + i, j]) for j in range(3)] for i in range(3)])
+            Uh = Om - np.diag([1.0, 1.0, 0.0])
+            Hs = np.zeros((6, 6))
+            Hs[3, 3] = Hs[4, 4] = Hs[5, 5] = 1.0
+            Hs[1, 3] = Hs[3, 1] = 1.0
+            Hs[0, 4] = Hs[4, 0] = -1.0
+            Hs[:3, :3] = -Uh
+            N = C.T @ Hs @ C
+            w = [float(v) for v in modes[:3]]
+            T = np.zeros((6, 6))
+            for i in range(3):
+                T[i, i] = T[i + 3, i + 3] = w[i]
+            # the expansion frame is the synodic frame rotated by pi: the Hessian is the same, so C must reduce it as is
+            if float(np.max(np.abs(N - T))) > 1e-6 * (1 + float(np.max(np.abs(T)))) * (1 + float(np.max(np.abs(C))) ** 2):
+                V("normal_form/h2_not_reduced", "triangular point: C^T Hess(H2) C is not diag(w1,w2,wz | w1,w2,wz) = %s: max deviation %.3e" % (w, float(np.max(np.abs(N - T)))), N, T)
     # c_n
     if collinear and gamma is not None:
         ref = _cn_ref(float(mu), gamma, name, 8)
